@@ -33,7 +33,8 @@ const GOOD_ALIAS_INTO: &[&str] = &["ж > ʃ", "ю > a:[+stress]", "カ > ka"];
 const GOOD_ALIAS_FROM: &[&str] = &["ʃ > sh", "$ > *", "a:[+stress] > á"];
 const BAD_WORDS: &[&str] = &["pa☃ta", "ʰpa", "ːpa", "pa123456", "ˈ", "paˈ", "pa.t̪̃ʱʼ", "qǀ̃̃͡", "pa*", "%", "t͡", "a.b.c.d.ɧ͡ʘ"];
 
-fn mk_groups(gs: &[Vec<String>]) -> Vec<RuleGroup> { gs.iter().enumerate().map(|(i, r)| RuleGroup { name: format!("group {i}"), rule: r.clone(), description: String::new() }).collect() }
+/// a group without any rule line is a completely empty RuleGroup (no name, no description): what an unused rule box of the web UI sends
+fn mk_groups(gs: &[Vec<String>]) -> Vec<RuleGroup> { gs.iter().enumerate().map(|(i, r)| if r.is_empty() { RuleGroup::new() } else { RuleGroup { name: format!("group {i}"), rule: r.clone(), description: String::new() } }).collect() }
 
 /// parses the plain-text (NO_COLOR) output of a formatter: (echoed line, caret columns, trailer)
 fn parse_formatted(txt: &str) -> Option<(String, Vec<usize>, String)> {
@@ -71,7 +72,7 @@ fn check_random(case: &Value) -> Outcome {
 impl Property for C17 {
     fn id(&self) -> &'static str { "C17" }
     fn rule(&self) -> String {
-        "Fault enumeration: valid backgrounds of 1-4 rule groups × 1-4 lines (valid rules that never fire on the trigger words, blank and comment lines) and, for EVERY (group, line) position, every fault of a catalogue planted there: 52 syntactically invalid lines, 35 rules that fail at run time on a word containing `a`, 3 position-less runtime errors; likewise every faulty alias line (17 deromaniser, 14 romaniser) at every position among valid alias lines, and every bad word at every position of a word list. \
+        "Fault enumeration: valid backgrounds of 1-4 rule groups × 1-4 lines (a third of them also with completely empty rule groups before and after the faulty group) (valid rules that never fire on the trigger words, blank and comment lines) and, for EVERY (group, line) position, every fault of a catalogue planted there: 52 syntactically invalid lines, 35 rules that fail at run time on a word containing `a`, 3 position-less runtime errors; likewise every faulty alias line (17 deromaniser, 14 romaniser) at every position among valid alias lines, and every bad word at every position of a word list. \
          Oracle: asca::run returns Err; the matching formatter (NO_COLOR) returns without panicking; its text echoes exactly the planted line (resp. the alias line, the bad word), names `Rule g+1, Line l+1` (resp. `deromaniser|romaniser, line l+1`) equal to the planted position, and every caret column lies in [0, chars(line)+1]. \
          A catalogue entry that does not yield Err on this tree is reported under `catalogue_entries_not_failing` (not a violation: the catalogue over-approximates). Non-trivial: distinct (error variant, group, line) triples. Both tiers enumerate the full catalogue × every position of 5 fixed and 30 (thorough: 300) seed-generated background shapes. (R) random part: generated multi-group rule lists, mutated rule lists and noise (C02's generators) — whenever run returns Err, the formatted text must name a rule/line (alias line) that exists and every caret must lie within that line (quick 300k, thorough 3M).".into()
     }
@@ -89,6 +90,12 @@ impl Property for C17 {
                     let mut groups: Vec<Vec<String>> = vec![]; let mut k = si + fi;
                     for (gi, n) in shape.iter().enumerate() { let mut rs = vec![]; for li in 0..*n { rs.push(if gi == g && li == l { fault.to_string() } else { k += 1; BACKGROUND[k % BACKGROUND.len()].to_string() }); } groups.push(rs); }
                     run_case(self, ctx, json!({"kind": "rule", "class": class, "groups": groups, "group": g, "line": l, "words": ["pa.ta", "ˈa"]}));
+                    // the same with completely empty groups in front of and behind the faulty group
+                    if fi % 3 == si % 3 {
+                        let mut g2 = groups.clone(); g2.insert(g + 1, vec![]); g2.insert(g, vec![]); if g > 0 { g2.insert(0, vec![]); }
+                        let shift = if g > 0 { 2 } else { 1 };
+                        run_case(self, ctx, json!({"kind": "rule", "class": class, "groups": g2, "group": g + shift, "line": l, "words": ["pa.ta", "ˈa"]}));
+                    }
                 }
             } }
         }
